@@ -73,6 +73,59 @@ def attr_uses(attrs, kinds=("Load", "fmt")):
     return sorted(out)
 
 
+def global_object_events():
+    """Classes instantiated at module level or in class bodies (process-global objects: NCCG, PROTONATOR, descriptors ...) and, for each of
+    their methods, the ordered accesses of `self.<attr>`: R (load), W (store / augmented store), M (store into self.<attr>[...]).
+    -> (list of (holder, variable, class), list of (class, method, [(attr, kind)]))"""
+    holders = []
+    classes = {}
+    for f in sorted((common.REPO / "propka").glob("*.py")):
+        tree = ast.parse(f.read_text())
+
+        def ctor_name(v):
+            if isinstance(v, ast.Call):
+                fn = v.func
+                if isinstance(fn, ast.Name):
+                    return fn.id
+                if isinstance(fn, ast.Attribute):
+                    return fn.attr
+            return None
+        for n in tree.body:
+            if isinstance(n, ast.Assign) and len(n.targets) == 1 and isinstance(n.targets[0], ast.Name) and ctor_name(n.value):
+                holders.append((f.name, n.targets[0].id, ctor_name(n.value)))
+            if isinstance(n, ast.ClassDef):
+                classes[n.name] = (f.name, n)
+                for m in n.body:
+                    if isinstance(m, ast.Assign) and len(m.targets) == 1 and isinstance(m.targets[0], ast.Name) and ctor_name(m.value):
+                        holders.append((f.name, n.name + "." + m.targets[0].id, ctor_name(m.value)))
+    holders = [h for h in holders if h[2] in classes]
+    events = []
+    for cname in sorted({h[2] for h in holders}):
+        _, node = classes[cname]
+        for m in node.body:
+            if not isinstance(m, (ast.FunctionDef,)):
+                continue
+            if not m.args.args or m.args.args[0].arg != "self":
+                continue
+            ev = []
+            for x in ast.walk(m):
+                if isinstance(x, ast.Attribute) and isinstance(x.value, ast.Name) and x.value.id == "self":
+                    kind = "W" if isinstance(x.ctx, (ast.Store, ast.Del)) else "R"
+                    ev.append((x.lineno, x.col_offset, x.attr, kind))
+                if isinstance(x, ast.Subscript) and isinstance(x.ctx, (ast.Store, ast.Del)) and isinstance(x.value, ast.Attribute) \
+                        and isinstance(x.value.value, ast.Name) and x.value.value.id == "self":
+                    ev.append((x.lineno, x.col_offset - 1, x.value.attr, "M"))
+                if isinstance(x, ast.AugAssign) and isinstance(x.target, ast.Attribute) and isinstance(x.target.value, ast.Name) and x.target.value.id == "self":
+                    ev.append((x.lineno, x.col_offset, x.target.attr, "W"))
+                # setattr(self, ...) / self.__dict__ tricks: recorded as a write of the pseudo attribute '*'
+                if isinstance(x, ast.Call) and isinstance(x.func, ast.Name) and x.func.id == "setattr" and x.args and isinstance(x.args[0], ast.Name) and x.args[0].id == "self":
+                    ev.append((x.lineno, x.col_offset, "*", "W"))
+            ev.sort()
+            # assignments evaluate the right-hand side first: order a store after the loads of the same statement line
+            events.append((cname, m.name, [(a, k) for _, _, a, k in sorted(ev, key=lambda t: (t[0], 0 if t[3] == "R" else 1, t[1]))]))
+    return sorted(holders), events
+
+
 def bonds_tables():
     """offsets literal of find_bonds_for_atoms_using_boxes, distance constants and the distances dict of BondMaker"""
     import fractions
@@ -141,6 +194,11 @@ def regenerate():
            "(* every read (incl. format strings) of the residue-identifying attributes *)",
            "Definition residue_identity_reads : list (string * string * string) :=\n  "
            + clist([f"({cstr(a)}, {cstr(b)}, {cstr(c)})" for a, b, c in attr_uses(("chain_id", "res_num", "icode", "residue_label", "label"))]) + ".", ""]
+    holders, events = global_object_events()
+    inv += ["(* process-global objects (module-level / class-level instances of propka classes) and the self-attribute accesses of their methods *)",
+            "Definition global_objects : list (string * string * string) :=\n  " + clist([f"({cstr(a)}, {cstr(b)}, {cstr(c)})" for a, b, c in holders]) + ".",
+            "Definition global_object_events : list (string * string * list (string * string)) :=\n  "
+            + clist([f"({cstr(c)}, {cstr(m)}, {clist([f'({cstr(a)}, {cstr(k)})' for a, k in ev])})" for c, m, ev in events]) + ".", ""]
     if common.write_if_changed(common.GEN / "Inventory_gen.v", "\n".join(inv) + "\n"):
         written.append("Inventory_gen")
     cfg = (common.REPO / "propka" / "propka.cfg").read_text()
